@@ -7,7 +7,9 @@ walk_descents/evaluate_descent through hook H1 and the deterministic scheduler h
 real threads' sequence of pthread operations must be the one the model predicts and the result must equal both
 the model's and a sequential reference computed from the same numbers; (b) oracle = the property itself:
 free-running walk_descents, nnls_normal_block3 and spline fits under OMP_NUM_THREADS in {1,2,3,4,8,16,32}
-must terminate (timeout) with bitwise identical results; (c) thorough: the same free-running under TSan."""
+must terminate (timeout) with bitwise identical results; (c) thorough: the same free-running under TSan;
+(d) test of the termination bound B0(N, n_alpha) of C12_terminates_from_init: against the exact longest schedule of the
+extracted model for small configurations, and on every generated schedule."""
 import collections, glob, json, os, re, subprocess, sys, time
 from common import *
 
@@ -16,7 +18,7 @@ ASSUMPTIONS = [
     "pthread mutex / condition variable / create / join semantics as in POSIX (written out in Handshake.v: step, spurious); sequential consistency for race-free executions",
     "the worker's numeric computation is abstracted to 'worker j, told to use trial step a, leaves outputs for a'; residual order enters only through the abstract relation lt",
     "a model step is one pthread call plus adjacent straight-line code under an unchanged mutex state; the j-loops under the mutex and the selection loop are single steps whose access sets are the union (sound for race freedom because the union is what is checked)",
-    "OS fairness is not modelled: theorems say some thread can always move (no deadlock) and every schedule is finite without spurious wake-ups; sched_setaffinity failures are ignored",
+    "OS fairness is not modelled: theorems say some thread can always move (no deadlock) and that an execution makes at most B0(N, n_alpha) thread steps plus two per spurious wake-up (so every maximal execution with finitely many spurious wake-ups returns); that the OS eventually runs some enabled thread and delivers only finitely many spurious wake-ups is assumed; sched_setaffinity failures are ignored",
     "Handshake.v tied to cholesky_solve.c by forcing model-generated schedules on the real code on this run's cases (operation sequence + result compared exactly)",
 ]
 TRUSTED_EXTRA = [
